@@ -249,6 +249,16 @@ def _split_case(ctx, pstreams, l, m):
             judge, nontrivial=(l > m > 0 and l >= 3))
 
 
+def _layout(a2d, rng):
+    """the same 2-D map in C order, Fortran order or as a transposed view (sampled maps are user arrays)"""
+    u = rng.random()
+    if u < 0.5:
+        return a2d
+    if u < 0.75:
+        return np.asfortranarray(a2d)
+    return np.ascontiguousarray(a2d.T).T
+
+
 def _streams_case(ctx, rng, pstreams, flw, ds, shape, seq):
     n = len(ds)
     kind, mask = gen_mask(rng, ds, flw)
@@ -283,7 +293,7 @@ def _streams_case(ctx, rng, pstreams, flw, ds, shape, seq):
         ys = np.array([rng.randint(-40, 40) / 4 for _ in range(n)], dtype=np.float64)
     nmaps = rng.choice([0, 1, 2])
     maps = [np.array([rng.randint(-99, 99) for _ in range(n)], dtype=np.int64) for _ in range(nmaps)]
-    kwargs = {f"m{j}": (maps[j].reshape(shape) if rng.random() < 0.5 else maps[j]) for j in range(nmaps)}
+    kwargs = {f"m{j}": (_layout(maps[j].reshape(shape), rng) if rng.random() < 0.5 else maps[j]) for j in range(nmaps)}
     call = {"max_len": max_len}
     if min_sto is not None:
         call["min_sto"] = min_sto
@@ -508,7 +518,7 @@ def _geofeatures_case(ctx, rng, flw, ds, shape):
         call.update(xs=xs, ys=ys.reshape(shape))
     nmaps = rng.choice([0, 1, 2])
     maps = [np.array([rng.randint(-99, 99) for _ in range(n)], dtype=np.int64) for _ in range(nmaps)]
-    kwargs = {f"m{j}": (maps[j].reshape(shape) if rng.random() < 0.5 else maps[j]) for j in range(nmaps)}
+    kwargs = {f"m{j}": (_layout(maps[j].reshape(shape), rng) if rng.random() < 0.5 else maps[j]) for j in range(nmaps)}
     bad = rng.random() < 0.1
     if bad:
         kwargs["bad"] = np.zeros(n + 1)
